@@ -135,7 +135,7 @@ def check_property(prop, tier="quick", seed=0, only=None, verbose=False):
             fn["status"] = "undecided"
             continue
         if r.get("error"):
-            errors.append(dict(contract=cls, shape=shape, error=r["error"], trace=r.get("trace", "")))
+            errors.append(dict(contract=cls, shape=shape, error=r["error"], trace=r.get("trace", ""), kind="incomplete"))
             continue
         if r.get("unsupported"):
             undecided.append(dict(contract=cls, shape=shape, reason="Unsupported: " + r["unsupported"]))
@@ -287,7 +287,7 @@ def check_property(prop, tier="quick", seed=0, only=None, verbose=False):
     diff_cases = 0
     for (cls, idx), dr in dres.items():
         if dr.get("timeout") or dr.get("error"):
-            errors.append(dict(contract=cls, shape=cmap[cls][1].shapes[idx], error=f"differential run failed: {dr}"))
+            errors.append(dict(contract=cls, shape=cmap[cls][1].shapes[idx], error=f"differential run failed: {dr}", kind="incomplete"))
             continue
         diff_cases += dr["cases"]
         g = guard["differential"].setdefault(cls, dict(cases=0, skipped=0))
@@ -296,7 +296,7 @@ def check_property(prop, tier="quick", seed=0, only=None, verbose=False):
         if dr["mismatches"]:
             errors.append(dict(contract=cls, shape=cmap[cls][1].shapes[idx], error="CPython differential mismatch (engine semantics != CPython)", detail=dr["mismatches"][:2]))
         if dr["errors"]:
-            errors.append(dict(contract=cls, shape=cmap[cls][1].shapes[idx], error="differential case errors", detail=dr["errors"][:2]))
+            errors.append(dict(contract=cls, shape=cmap[cls][1].shapes[idx], error="differential case errors", detail=dr["errors"][:2], kind="incomplete"))
 
     # ------------------------------------------------------------ bounded stand-ins
     bounded = []
@@ -312,7 +312,7 @@ def check_property(prop, tier="quick", seed=0, only=None, verbose=False):
         try:
             br = getattr(mod, b["fn"])(tier=tier, seed=seed)
         except BaseException as e:
-            errors.append(dict(contract=b["fn"], error=f"bounded stand-in crashed: {type(e).__name__}: {e}"))
+            errors.append(dict(contract=b["fn"], error=f"bounded stand-in crashed: {type(e).__name__}: {e}", kind="incomplete"))
             continue
         br.update(function=b.get("function"), label="bounded (NOT proved)", secs=round(time.time() - t0, 2))
         bounded.append(br)
@@ -331,8 +331,12 @@ def check_property(prop, tier="quick", seed=0, only=None, verbose=False):
 
     # ------------------------------------------------------------ evidence
     wall = time.time() - t_start
+    # errors of kind "incomplete" (the engine / the native harness / the contract code could not run a case: nothing was
+    # decided there) do not take back an obligation that WAS refuted elsewhere; every other error (canary not refuted,
+    # CPython differential mismatch, vacuity) questions the engine itself and makes the whole run a checker error
+    unsound_errors = [e for e in errors if e.get("kind") != "incomplete"]
     status = "held"
-    if errors:
+    if unsound_errors or (errors and not violations):
         status = "checker-error"
     elif violations:
         status = "violation"
@@ -397,7 +401,7 @@ def check_property(prop, tier="quick", seed=0, only=None, verbose=False):
             print(e["trace"][-1500:], file=sys.stderr)
         if verbose and e.get("detail") and len(shown) <= 2:
             print(json.dumps(e["detail"], default=str)[:1200], file=sys.stderr)
-    if errors:
+    if unsound_errors or (errors and not violations):
         return 3
     for fname, nofail, cls, clause in violations:
         print(f"VIOLATION property={prop} replay={fname}" + (" no-failing-input-found" if nofail else ""))
